@@ -61,7 +61,7 @@ fn main() {
             let out = arg(&args, "--out").expect("--out");
             let workers: usize = arg(&args, "--workers").and_then(|s| s.parse().ok()).unwrap_or(16);
             let cases: u32 = arg(&args, "--cases").and_then(|s| s.parse().ok()).unwrap_or(if thorough { 8000 } else { 300 });
-            let regs = arg(&args, "--regs").unwrap_or_else(|| if prop == "C09" { "p6a,p6b,p6c,p10,p1".into() } else if thorough { "r6,r10,r8,r9,r1,r0,t6,t10".into() } else { "r6,r10,r8,r9,r1,r0".into() });
+            let regs = arg(&args, "--regs").unwrap_or_else(|| if prop == "C09" { "p6a,p6b,p6c,p10,p1".into() } else if prop == "C05" { if thorough { "r6,r10,r8,r9,r1,r0,t6,t10,p6a,p10".into() } else { "r6,r10,r8,r9,r1,r0,p6a,p10".into() } } else if thorough { "r6,r10,r8,r9,r1,r0,t6,t10".into() } else { "r6,r10,r8,r9,r1,r0".into() });
             let excl_arg = arg(&args, "--exclude").unwrap_or_default();
             let mute = !args.iter().any(|a| a == "--no-mute");
             vcore::crash::install(&format!("{out}.crash.json"));
